@@ -334,10 +334,11 @@ theorem forStates_mul_gate (sd eps : Rat) (hss : List (Mat Rat n n)) (G : Mat Ra
   unfold forStates
   simp only [List.map_map, Function.comp_def, mulVec_mulVec]
 
-/-- C06 associativity, exact: `(M∘G)∘ρ` and `M∘(G∘ρ)` are the same model value (same ensemble, same
-probabilities, same truncation decisions, same errors), for every (well-formed) measurement process with the
-default `eps_zero`, every gate and every state. -/
-theorem assoc_mprocess_gate_state (c : Cfg) (s : Nat) (shape : List Nat) (hss : List (Mat Rat n n))
+/-- C06 associativity `(M∘G)∘ρ = M∘(G∘ρ)` as model values (same ensemble, probabilities, truncation decisions, errors),
+for every well-formed measurement process **with the default `eps_zero`**, every gate and every state. Partial: for
+a non-default `eps_zero` the statement is false in the model and in the code (`assoc_mprocess_gate_state_eps_fails`,
+open finding D16: `M∘G` is rebuilt with the default `eps_zero`). -/
+theorem assoc_mprocess_gate_state_default_eps_partial (c : Cfg) (s : Nat) (shape : List Nat) (hss : List (Mat Rat n n))
     (G : Mat Rat n n) (rho : Vec Rat n) (hsz : hss.length = QM.C16.prod shape) :
     (compose c (.mprocess s shape eps8 hss) (.gate s G)).bind (fun x => compose c x (.state s rho))
       = (compose c (.gate s G) (.state s rho)).bind (fun y => compose c (.mprocess s shape eps8 hss) y) := by
@@ -482,6 +483,212 @@ theorem gate_branches_are_instruments (a b : Mat K n n) (hss : List (Mat K n n))
   | cons h t ih => simp [List.flatMap_cons, ih]
 
 end inst
+
+/-! ### instruments on the executed evaluator (`Tree.eval` / `composeChain` over `compose`) -/
+section exec
+variable {n : Nat} [NeZero n]
+
+/-- list of outcome maps a gate / measurement process stands for (a gate is the one-outcome instrument) -/
+def instOf : QOp n → List (Mat Rat n n)
+  | .gate _ A => [A]
+  | .mprocess _ _ _ hss => hss
+  | _ => []
+
+/-- reported outcome shape (`()` for a gate) -/
+def shapeOf : QOp n → List Nat
+  | .mprocess _ shape _ _ => shape
+  | _ => []
+
+/-- a gate, or a measurement process whose number of outcome maps matches its shape, on system `s` -/
+def IsInst (s : Nat) : QOp n → Prop
+  | .gate s' _ => s' = s
+  | .mprocess s' shape _ hss => s' = s ∧ hss.length = QM.C16.prod shape
+  | _ => False
+
+omit [NeZero n] in
+theorem c16prod_append (a b : List Nat) : QM.C16.prod (a ++ b) = QM.C16.prod a * QM.C16.prod b := by
+  induction a with
+  | nil => simp [QM.C16.prod]
+  | cons x a ih => simp only [List.cons_append, QM.C16.prod, List.foldr_cons] at *; rw [ih, Nat.mul_assoc]
+
+omit [NeZero n] in
+theorem mpMp_length (h1 h2 : List (Mat Rat n n)) : (mpMp h1 h2).length = h2.length * h1.length :=
+  length_flatMap_map _ _ _
+
+/-- one composition step of the executed dispatch on instruments: it succeeds, stays an instrument on the same
+system, its outcome maps are `mpMp` of the operands' and its shape is `shape(b) ++ shape(a)` -/
+theorem compose_inst (c : Cfg) (s : Nat) (a b : QOp n) (ha : IsInst s a) (hb : IsInst s b) :
+    ∃ v, compose c a b = .ok v ∧ IsInst s v ∧ instOf v = mpMp (instOf a) (instOf b) ∧
+      shapeOf v = shapeOf b ++ shapeOf a := by
+  cases a with
+  | gate s1 A =>
+    cases b with
+    | gate s2 B =>
+      simp only [IsInst] at ha hb
+      exact ⟨.gate s (A.mul B), by simp [compose, ha, hb], by simp [IsInst], by simp [instOf, mpMp], by simp [shapeOf]⟩
+    | mprocess s2 sh e hss =>
+      simp only [IsInst] at ha hb; obtain ⟨hs, hl⟩ := hb
+      exact ⟨.mprocess s sh eps8 (hss.map fun hs => A.mul hs), by simp [compose, mkMProcess, hl, ha, hs],
+        by simp [IsInst, hl], (gate_branches_are_instruments A A hss).2.1, by simp [shapeOf]⟩
+    | _ => simp [IsInst] at hb
+  | mprocess s1 sh1 e1 h1 =>
+    cases b with
+    | gate s2 B =>
+      simp only [IsInst] at ha hb; obtain ⟨hs, hl⟩ := ha
+      exact ⟨.mprocess s sh1 eps8 (h1.map fun hs => hs.mul B), by simp [compose, mkMProcess, hl, hb, hs],
+        by simp [IsInst, hl], by simpa [instOf] using (gate_branches_are_instruments B B h1).2.2, by simp [shapeOf]⟩
+    | mprocess s2 sh2 e2 h2 =>
+      simp only [IsInst] at ha hb; obtain ⟨hs1, hl1⟩ := ha; obtain ⟨hs2, hl2⟩ := hb
+      have hlen : (mpMp h1 h2).length = QM.C16.prod (sh2 ++ sh1) := by
+        rw [mpMp_length, c16prod_append, hl1, hl2]
+      exact ⟨.mprocess s (sh2 ++ sh1) eps8 (mpMp h1 h2), by simp [compose, mkMProcess, hlen, hs1, hs2],
+        by simp [IsInst, hlen], rfl, rfl⟩
+    | _ => simp [IsInst] at hb
+  | _ => simp [IsInst] at ha
+
+/-- C06 "any two ways of bracketing the same time-ordered chain give the same outcome statistics with the same
+outcome labelling", on the **executed** evaluator (`Tree.eval` over `compose`, the path of the `tree` driver op), for
+chains of gates and well-formed measurement processes of any length and any outcome counts: every bracketing
+evaluates without error to an instrument whose list of outcome maps is the right-nested composition of the leaves
+(`foldInst`, layout included) and whose reported shape is the concatenation of the leaves' shapes, earliest first. -/
+theorem tree_eval_instruments (c : Cfg) (s : Nat) (t : Tree n) (h : ∀ x ∈ t.leaves, IsInst s x) :
+    ∃ v, t.eval c = .ok v ∧ IsInst s v ∧ instOf v = foldInst (t.leaves.map instOf) ∧
+      shapeOf v = ((t.leaves.map shapeOf).reverse).flatten := by
+  induction t with
+  | leaf x =>
+    refine ⟨x, rfl, h x (by simp [Tree.leaves]), ?_, by simp [Tree.leaves]⟩
+    simp [Tree.leaves, foldInst, mpMp_one_right]
+  | node l r ihl ihr =>
+    obtain ⟨a, ha, hai, hainst, hash⟩ := ihl (fun x hx => h x (by simp [Tree.leaves, hx]))
+    obtain ⟨b, hb, hbi, hbinst, hbsh⟩ := ihr (fun x hx => h x (by simp [Tree.leaves, hx]))
+    obtain ⟨v, hv, hvi, hvinst, hvsh⟩ := compose_inst c s a b hai hbi
+    refine ⟨v, by simp [Tree.eval, ha, hb, hv, bind, Except.bind], hvi, ?_, ?_⟩
+    · rw [hvinst, hainst, hbinst, Tree.leaves, List.map_append, foldInst_append]
+    · rw [hvsh, hash, hbsh, Tree.leaves, List.map_append, List.reverse_append, List.flatten_append]
+
+/-- corollary: two bracketings of the same chain of instruments give results with the same outcome maps, in the same
+order, under the same reported shape (the only field that may differ is `eps_zero`, which `compose` resets) -/
+theorem tree_bracketing_instruments (c : Cfg) (s : Nat) (t t' : Tree n) (h : ∀ x ∈ t.leaves, IsInst s x)
+    (hl : t'.leaves = t.leaves) :
+    ∃ v v', t.eval c = .ok v ∧ t'.eval c = .ok v' ∧ instOf v = instOf v' ∧ shapeOf v = shapeOf v' := by
+  obtain ⟨v, hv, _, hi, hs⟩ := tree_eval_instruments c s t h
+  obtain ⟨v', hv', _, hi', hs'⟩ := tree_eval_instruments c s t' (hl ▸ h)
+  exact ⟨v, v', hv, hv', by rw [hi, hi', hl], by rw [hs, hs', hl]⟩
+
+/-- the right-nested bracketing of a chain -/
+def rightNested : List (QOp n) → Option (Tree n)
+  | [] => none
+  | [x] => some (.leaf x)
+  | x :: xs => (rightNested xs).map fun t => .node (.leaf x) t
+
+omit [NeZero n] in
+theorem rightNested_leaves (l : List (QOp n)) (t : Tree n) (h : rightNested l = some t) : t.leaves = l := by
+  induction l generalizing t with
+  | nil => simp [rightNested] at h
+  | cons x xs ih =>
+    cases xs with
+    | nil => simp [rightNested] at h; subst h; simp [Tree.leaves]
+    | cons y ys =>
+      simp only [rightNested, Option.map_eq_some_iff] at h
+      obtain ⟨t', ht', rfl⟩ := h
+      simp [Tree.leaves, ih t' ht']
+
+theorem foldl_chain (c : Cfg) (xs : List (QOp n)) (acc : Except Err (QOp n)) :
+    (xs.reverse).foldl (fun acc e => acc.bind fun t => compose c e t) acc
+      = xs.foldr (fun e r => r.bind fun t => compose c e t) acc := by
+  rw [List.foldl_reverse]
+
+/-- the public `compose_qoperations(*elements)` fold is the evaluation of the right-nested bracketing: for a chain
+of at least two elements, `composeChain` returns what `Tree.eval` returns on `x₁ ∘ (x₂ ∘ (… ∘ x_k))` whenever that
+evaluation succeeds (on errors both fail). -/
+theorem composeChain_eq_rightNested (c : Cfg) (l : List (QOp n)) (t : Tree n) (hl : 2 ≤ l.length)
+    (ht : rightNested l = some t) (v : QOp n) (hv : t.eval c = .ok v) :
+    composeChain c l = some (.ok v) := by
+  -- reduce to the foldr form
+  have key : ∀ (l : List (QOp n)) (t : Tree n), rightNested l = some t →
+      ∀ last init, l = init ++ [last] →
+        t.eval c = init.foldr (fun e r => r.bind fun t => compose c e t) (.ok last) := by
+    intro l
+    induction l with
+    | nil => intro t h; simp [rightNested] at h
+    | cons x xs ih =>
+      intro t h last init hl
+      cases xs with
+      | nil =>
+        simp [rightNested] at h; subst h
+        cases init with
+        | nil => simp at hl; subst hl; simp [Tree.eval]
+        | cons a as => simp at hl
+      | cons y ys =>
+        simp only [rightNested, Option.map_eq_some_iff] at h
+        obtain ⟨t', ht', rfl⟩ := h
+        cases init with
+        | nil => simp at hl
+        | cons a as =>
+          simp only [List.cons_append, List.cons.injEq] at hl
+          obtain ⟨rfl, hl'⟩ := hl
+          have := ih t' ht' last as hl'
+          simp only [Tree.eval, List.foldr_cons, this, bind, Except.bind]
+  unfold composeChain
+  obtain ⟨init, last, rfl⟩ : ∃ init last, l = init ++ [last] := by
+    rcases List.eq_nil_or_concat l with h | ⟨i, a, h⟩
+    · subst h; simp at hl
+    · exact ⟨i, a, by simpa using h⟩
+  have hinit : init ≠ [] := by intro h; subst h; simp at hl
+  simp only [List.reverse_append, List.reverse_cons, List.reverse_nil, List.nil_append, List.singleton_append]
+  cases hr : init.reverse with
+  | nil => simp at hr; exact absurd hr hinit
+  | cons a as =>
+    simp only
+    have : (a :: as) = init.reverse := hr.symm
+    rw [this, foldl_chain, ← key _ t ht last init rfl, hv]
+
+/-- C06 `assoc_mprocess_gate_state` without the default-`eps_zero` restriction is **false** (open finding D16: the
+dispatch rebuilds `M∘G`, `G∘M`, `M∘M` without passing `eps_zero`, operators.py:449-466, 542): for a measurement process
+with `eps_zero = 1/2` and outcome probabilities 1/3, 2/3 the bracketing `(M∘G)∘ρ` keeps both outcomes while `M∘(G∘ρ)`
+truncates the first. -/
+theorem assoc_mprocess_gate_state_eps_fails :
+    ¬ ∀ (c : Cfg) (s : Nat) (shape : List Nat) (eps : Rat) (hss : List (Mat Rat 1 1)) (G : Mat Rat 1 1)
+        (rho : Vec Rat 1), hss.length = QM.C16.prod shape →
+      (compose c (.mprocess s shape eps hss) (.gate s G)).bind (fun x => compose c x (.state s rho))
+        = (compose c (.gate s G) (.state s rho)).bind (fun y => compose c (.mprocess s shape eps hss) y) := by
+  intro h
+  have := h { sd := 1, atol := 0 } 0 [2] (1 / 2) [#v[#v[1/3]], #v[#v[2/3]]] #v[#v[1]] #v[1] (by decide)
+  have h2 := congrArg distShape this
+  revert h2
+  decide +kernel
+
+/-- C06 "Born-rule distribution (non-negative …)" as computed: whatever the inputs, every entry `truncate_and_normalize`
+returns is ≥ 0 for a non-negative threshold (entries below it are zeroed, the rest divided by their positive sum). -/
+theorem truncNorm_nonneg (eps : Rat) (ps qs : List Rat) (heps : 0 ≤ eps) (h : truncNorm eps ps = some qs) :
+    ∀ q ∈ qs, 0 ≤ q := by
+  unfold truncNorm at h
+  simp only at h
+  split at h
+  · cases h
+  · rename_i hne
+    injection h with h; subst h
+    have hnn : ∀ x ∈ ps.map (fun p => if p < eps then 0 else p), 0 ≤ x := by
+      intro x hx
+      simp only [List.mem_map] at hx
+      obtain ⟨p, _, rfl⟩ := hx
+      split
+      · exact le_rfl
+      · rename_i hp; exact le_trans heps (not_lt.mp hp)
+    have hs : 0 ≤ lsum (ps.map fun p => if p < eps then 0 else p) := by
+      rw [lsum_eq_sum]; exact List.sum_nonneg hnn
+    intro q hq
+    obtain ⟨x, hx, rfl⟩ := List.mem_map.1 hq
+    exact div_nonneg (hnn x hx) hs
+
+/-- non-vacuity of `tree_eval_instruments` / `compose_inst`: a gate and two measurement processes with 2 and 3 outcomes
+on a 1-qubit-like system (`n = 2`) are instruments; `hsz`-type hypotheses (`hss.length = prod shape`) hold -/
+example : IsInst 0 (.gate 0 (#v[#v[1, 0], #v[1/3, 1/2]] : Mat Rat 2 2)) ∧
+    IsInst 0 (.mprocess 0 [2] eps8 [(#v[#v[1/4, 1/8], #v[0, 1/2]] : Mat Rat 2 2), #v[#v[3/4, -1/8], #v[1/3, 0]]]) ∧
+    IsInst 0 (.mprocess 0 [3] (1/2) [(Mat.one : Mat Rat 2 2), Mat.one, Mat.one]) := by
+  refine ⟨rfl, ⟨rfl, by decide⟩, ⟨rfl, by decide⟩⟩
+
+end exec
 
 /-! ### ensembles -/
 section ens
@@ -702,8 +909,10 @@ def rawP (sd : Rat) (rho : Vec Rat n) (hs : Mat Rat n n) : Rat := sd * (hs.mulVe
 def keptP (sd eps w : Rat) (rho : Vec Rat n) (hs : Mat Rat n n) : Rat :=
   if w * rawP sd rho hs ≤ eps then 0 else rawP sd rho hs
 
-/-- C06 "probability together with the normalised post-measurement state", **every branch** of
-`_compose_qoperations_MProcess_State_for_States` stated exactly: with `p̃_x = 0` if `weight·p_x ≤ eps_zero` else
+/-- C06 "probability together with the normalised post-measurement state": closed form of **every branch** of
+`_compose_qoperations_MProcess_State_for_States` (a definitional unfolding of the model function into per-outcome
+formulas — the content is in its consequences `truncated_probs_sum`, `truncated_weighted_state`,
+`post_states_normalised`, `mprocess_state_partial`): with `p̃_x = 0` if `weight·p_x ≤ eps_zero` else
 `p_x = sd·(HS_x ρ)₀`, `S = Σ_x p̃_x` and `T` = "some outcome was truncated and `S ≠ 0`":
 the post state of outcome `x` is `0` if `p̃_x = 0` and `HS_x ρ / p̃_x` otherwise, and its reported probability is
 `weight·p̃_x / S` if `T` and `weight·p̃_x` otherwise. No hypothesis on the inputs. -/
@@ -788,8 +997,9 @@ end exactbranch
 
 /-- non-vacuity: an instance where the truncation branch is taken and the kept probabilities do not vanish
 (weight 2·10⁻⁸, conditional probabilities 1/10 and 9/10): the reported probabilities sum to the weight -/
-example : lsum (forStates (1 : Rat) eps8 [(#v[#v[1/10]] : Mat Rat 1 1), #v[#v[9/10]]] #v[1] (2 / 100000000)).2
-    = 2 / 100000000 := by
+example : ([(#v[#v[1/10]] : Mat Rat 1 1), #v[#v[9/10]]].any
+      fun h => decide ((2 / 100000000 : Rat) * rawP 1 (#v[1] : Vec Rat 1) h ≤ eps8)) = true ∧
+    lsum ([(#v[#v[1/10]] : Mat Rat 1 1), #v[#v[9/10]]].map (keptP 1 eps8 (2 / 100000000) #v[1])) ≠ 0 := by
   decide +kernel
 
 /-- non-vacuity of `assoc_povm_mprocess_state_partial`: both outcome probabilities are non-zero -/
@@ -816,13 +1026,20 @@ theorem compose_mprocess_mprocess_matches_source (c : Cfg) (s : Nat) (sh1 sh2 : 
 theorem povmMProcess_matches_source (vecs : List (Vec Rat n)) (hss : List (Mat Rat n n)) :
     povmMProcess vecs hss = QGen.C06.pmCompose (fun hs v => hs.transpose.mulVec v) vecs hss := rfl
 
-/-- `_compose_qoperations_MProcess_State_for_States`: the model's truncation test is the generated one and the post
-states are divided by the probabilities taken before the renormalisation, as the source does (reverting the D13
-repair makes `postStatesUseRaw` false and this proof fail). -/
-theorem forStates_matches_source (sd eps w : Rat) (rho : Vec Rat n) (hs : Mat Rat n n) :
-    keptP sd eps w rho hs = (if QGen.C06.truncated w (rawP sd rho hs) eps then 0 else rawP sd rho hs) ∧
+/-- `_compose_qoperations_MProcess_State_for_States` of the model, in closed form over the truncation test regenerated
+from the source (`weight * p_x <= elem1.eps_zero`): post states are divided by the probabilities kept by that test
+*before* the renormalisation — the generated flag `postStatesUseRaw` (reverting the D13 repair makes it false and
+this proof fail; the flag itself is a guard emitted by the translator, not a translation). -/
+theorem forStates_matches_source (sd eps : Rat) (hss : List (Mat Rat n n)) (rho : Vec Rat n) (w : Rat) :
+    (forStates sd eps hss rho w).1 =
+        (hss.map fun hs =>
+          let kept := if QGen.C06.truncated w (rawP sd rho hs) eps then 0 else rawP sd rho hs
+          if kept = 0 then Vec.zero else vdiv (hs.mulVec rho) kept) ∧
       QGen.C06.postStatesUseRaw = true := by
   refine ⟨?_, rfl⟩
+  rw [mprocess_state_exact]
+  apply List.map_congr_left
+  intro hs _
   simp [keptP, QGen.C06.truncated]
 
 /-- the shape reported by `MProcess∘StateEnsemble` is the generated `elem2.prob_dist.shape + elem1.shape`
